@@ -363,3 +363,112 @@ class ContextHelpers(Unit):
             ctx.canary()
 
         ctx.eng.explore(thunk)
+
+
+# ================================================================================================
+# merge_dicts for ARBITRARY dicts: one generic key of `right` (proof; the whole-dict statement follows
+# because every key of `right` is visited exactly once and an iteration writes only its own key)
+# ================================================================================================
+class MergeDictsGeneric(Unit):
+    name = "U.merge_dicts.generic_key"
+    functions = ["orquesta.utils.dictionary.merge_dicts"]
+    obligations = {
+        "C06.merge_dicts.per_key": {"props": ["C06", "C16"], "text":
+            "for an arbitrary key k of `right` (arbitrary dicts, arbitrary values): k absent from left => left[k] becomes right[k]; both values dicts => left[k] stays the same object and is merged recursively with right[k]; otherwise overwrite => left[k] becomes exactly right[k], no overwrite => unchanged; no other key of left and nothing of right is written; None arguments return the other one"},
+    }
+    assumptions = [
+        "dicts are abstracted as (membership, value) functions over arbitrary keys; values opaque with an uninterpreted is-dict predicate",
+        "loop summary: each key of `right` is visited exactly once (dict.items contract) and one iteration writes only left[k] (shown per iteration) - the lift from one generic iteration to the whole loop is this independence argument, not re-proved by the solver",
+        "the recursive call is used through this same contract (termination on finite nesting not proved)",
+    ]
+    trusted = ["z3 5.1", "pyvc interpreter"]
+
+    def run_split(self, ctx, split):
+        eng = ctx.eng
+
+        def thunk(e):
+            k = S.mk_const("k")                      # arbitrary key
+            in_left = e.register_input("k_in_left", S.mk_bool("k_in_left"))
+            lval = S.mk_val("left_k")
+            rval = S.mk_val("right_k")
+            ldict = e.register_input("left_k_is_dict", S.mk_bool("left_k_is_dict"))
+            rdict = e.register_input("right_k_is_dict", S.mk_bool("right_k_is_dict"))
+            overwrite = e.register_input("overwrite", S.mk_bool("overwrite"))
+            writes, recursive, right_writes = [], [], []
+
+            def l_contains(en, key):
+                assert key is k
+                return in_left
+
+            def l_get(en, key):
+                assert key is k
+                if not en.branch(in_left.z):
+                    from pyvc.engine import Raised as R
+                    raise R(KeyError, (key,))
+                return lval
+
+            def l_set(en, key, value):
+                writes.append((key, value))
+
+            left = AbstractObj("left", __contains__=Stub("contains", l_contains), __getitem__=Stub("getitem", l_get),
+                               __setitem__=Stub("setitem", l_set))
+            right = AbstractObj("right", items=Stub("items", lambda en: "RIGHT_ITEMS"),
+                                __setitem__=Stub("setitem", lambda en, a, b: right_writes.append((a, b))))
+
+            def loop(en, st_, env):
+                # one generic iteration: (k, v) an arbitrary item of right
+                en.assign(st_.target, (k, rval), env)
+                en.exec_block(st_.body, env)
+
+            e.loop_handlers["merge_dicts:right.items()"] = loop
+
+            def isinst(en, args, kwargs, anysym):
+                x, t = args
+                if t is dict and x is lval:
+                    return ldict
+                if t is dict and x is rval:
+                    return rdict
+                return seqlib_isinstance(en, args, kwargs, anysym)
+
+            from pyvc import seqlib as _sl
+            seqlib_isinstance = _sl.BUILTIN_MODELS[isinstance]
+            _sl.BUILTIN_MODELS[isinstance] = isinst
+            real = dict_util.merge_dicts
+
+            def rec(en, l, r, overwrite=True):
+                if l is left and r is right:
+                    return en.call_function(real, [l, r], {"overwrite": overwrite}, bypass=True)
+                recursive.append((l, r, overwrite))
+                return l
+
+            e.overrides[real] = rec
+            try:
+                res = e.call(dict_util.merge_dicts, [left, right], {"overwrite": overwrite})
+            finally:
+                _sl.BUILTIN_MODELS[isinstance] = seqlib_isinstance
+            ow = overwrite.z
+            both = z3.And(in_left.z, ldict.z, rdict.z)
+            wrote = [w for w in writes if w[0] is k]
+            ok_frame = len(wrote) == len(writes) and not right_writes and res is left
+            if not wrote and not recursive:
+                claim = z3.And(in_left.z, z3.Not(both), z3.Not(ow))
+            elif recursive and not wrote:
+                claim = z3.And(both, z3.BoolVal(recursive == [(lval, rval, overwrite)] or
+                                                (len(recursive) == 1 and recursive[0][0] is lval and recursive[0][1] is rval)))
+            elif len(wrote) == 1 and not recursive:
+                claim = z3.And(z3.BoolVal(wrote[0][1] is rval), z3.Or(z3.Not(in_left.z), z3.And(z3.Not(both), ow)))
+            else:
+                claim = z3.BoolVal(False)
+            ctx.oblige("C06.merge_dicts.per_key", z3.And(z3.BoolVal(ok_frame), claim), None,
+                       {"writes": len(writes), "recursive_calls": len(recursive)})
+            ctx.canary()
+
+        eng.explore(thunk)
+
+        def none_cases(e):
+            e.overrides.pop(dict_util.merge_dicts, None)
+            e.loop_handlers.pop("merge_dicts:right.items()", None)
+            d = AbstractObj("d")
+            ctx.oblige("C06.merge_dicts.per_key", e.call(dict_util.merge_dicts, [None, d], {}) is d and
+                       e.call(dict_util.merge_dicts, [d, None], {}) is d, None, {"none": True})
+        eng.explore(none_cases)
